@@ -8,8 +8,8 @@ import frrparse as fp
 
 CLOSURE = ["Model/FrrAst.v", "Model/FrrRender.v", "Model/FrrSem.v", "Model/FrrSpec.v", "Model/FrrK8s.v", "Proofs/FrrSortP.v", "Proofs/FrrK8sP.v",
            "Proofs/FrrP.v", "Proofs/FrrListsP.v", "Proofs/FrrShapeP.v", "Proofs/FrrSemP.v", "Proofs/FrrOutP.v", "Proofs/FrrExactP.v",
-           "Proofs/FrrK8sEqP.v"]
-COQ_FILES = ["Corr/Run_FrrK8s.v"]
+           "Proofs/FrrK8sEqP.v", "Model/FrrMgr.v", "Proofs/FrrMgrP.v"]
+COQ_FILES = ["Corr/Run_FrrK8s.v", "Corr/Run_FrrMgr.v"]
 PKG = "internal/bgp/frrk8s"
 EXTRA_ROUTES = ["203.0.113.0/24", "2001:db8:ffff::/48"]
 F15 = "k8s-unnumbered-disablemp-no-activation"
@@ -199,6 +199,7 @@ def run(ctx):
                                           n=max(20, n // 4), seed=seed, tag=tag + "rec", extra_overlay=ov)
         cases += records(recs, okrun, log, "TestVerifK8sRec")
         terms = []
+        mterms = []
         for c in cases:
             for s in c["in"]["sessions"]:
                 s["advs"] = s.get("advs") or []
@@ -215,8 +216,12 @@ def run(ctx):
                 obs = "(Some %s)" % ckcfg(c["in"]["cfg"])
             elif not any(s["password"] and (s["secret_name"] or s["secret_ns"]) for s in S):
                 ctx.oracle_fail("k8s-unexpected-error", "updateConfig failed on a session set without password+secret conflicts", {"sessions": S})
-            terms.append("(KCfg %d%%N %s %s %s %s %s)" % (c["id"], fp.cstr(c["in"]["node"]), s_term, p_term, obs,
-                                                        fp.clist([fp.cpfx(r) for r in routes])))
+            if c.get("kind") == "frrk8s-history" and c["in"].get("ops_coq"):
+                # replayed through the model of the session manager (Model/FrrMgr.v) instead
+                mterms.append("(MK8s %d%%N %s %s %s %s)" % (c["id"], fp.cstr(c["in"]["node"]), c["in"]["ops_coq"], c["in"]["oks_coq"], obs))
+            else:
+                terms.append("(KCfg %d%%N %s %s %s %s %s)" % (c["id"], fp.cstr(c["in"]["node"]), s_term, p_term, obs,
+                                                            fp.clist([fp.cpfx(r) for r in routes])))
         pwcases = []
         if check_coq:
             recs, okrun, log = ctx.go_harness("speaker", ["zz_verif_pw_test.go"], "TestVerifPw$", seed=seed, tag=tag + "pw")
@@ -224,8 +229,20 @@ def run(ctx):
             terms += [c["coq"] for c in pwcases]
         mism = []
         if check_coq and terms and ok:
-            mism = ctx.coq_cases("Run_FrrK8s", "kcase", terms, shard=40, header="Open Scope string_scope.")
+            import concurrent.futures
+            with concurrent.futures.ThreadPoolExecutor(max_workers=2) as ex:
+                f1 = ex.submit(ctx.coq_cases, "Run_FrrK8s", "kcase", terms, None, 40, "Open Scope string_scope.")
+                f2 = ex.submit(ctx.coq_cases, "Run_FrrMgr", "mcase", mterms, None, 20, "Open Scope string_scope.") if mterms else None
+                mism = f1.result()
+                mm = f2.result() if f2 else []
+            state["replayed"] = state.get("replayed", 0) + len(mterms)
             byid = {c["id"]: c for c in cases + pwcases}
+            for m in mm[:3]:
+                c = byid.get(m // 10, {})
+                ctx.corr_broken.append("history %d replayed through Model/FrrMgr.v: %s\nhistory: %s" % (
+                    m // 10, {1: "per-operation results differ", 2: "the last FRRConfiguration handed on differs from the model's"}.get(m % 10, "?"),
+                    json.dumps((c.get("in") or {}).get("history"))[:1500]))
+            mism = mism + mm
             seen = set()
             outside = [m for m in mism if m % 10 == 9]
             state["outside_wf"] = state.get("outside_wf", 0) + len(outside)
@@ -265,6 +282,7 @@ def run(ctx):
                     if "sessions" not in c["in"] or any(s["advs"] for s in c["in"]["sessions"])})
     ctx.cov["correspondence"] = {"cases": len(cases), "mismatches": len(mism), "oracle_evaluations(neighbor x route)": state["evals"],
                                  "cases_outside_premises_of_C15_k8s_eq_frr(decided in Coq)": state.get("outside_wf", 0),
+                                 "histories_replayed_through_FrrMgr_model": state.get("replayed", 0),
                                  "generator_counters": st}
     ctx.trusted += [
         "H-sort: sort.Strings / sort.Slice on distinct keys return the sorted list (insertion sort in the model)",
